@@ -7,6 +7,7 @@ use crate::rng::{fnv64, splitmix64, Rng};
 use crate::shrink;
 use crate::trace::{Obs, Scenario, Tier, Trace, Violation};
 use std::collections::{BTreeMap, BTreeSet, HashSet};
+use std::sync::atomic::{AtomicBool, AtomicU64, Ordering};
 use std::time::Instant;
 
 pub fn run_seed(base: u64, scenario: &str, idx: u64) -> u64 {
@@ -61,12 +62,46 @@ pub fn is_nontrivial(s: &dyn Scenario, t: &Trace) -> bool {
     s.nontrivial(t)
 }
 
+/// Progress board for the watchdog: per worker, the run it is executing (index + 1; 0 = not running) and a tick that
+/// advances with every finished run. The watchdog only ever READS a real clock, and only to decide that an operation of
+/// the code under test never returned; it takes no part in generating, executing or logging a run.
+static CURRENT: [AtomicU64; 64] = [const { AtomicU64::new(0) }; 64];
+static TICK: [AtomicU64; 64] = [const { AtomicU64::new(0) }; 64];
+static ALL_DONE: AtomicBool = AtomicBool::new(false);
+
+fn watchdog(scenario: &'static str, jobs: usize) {
+    let limit: u64 = std::env::var("VERIF_WATCHDOG_S").ok().and_then(|v| v.parse().ok()).unwrap_or(60);
+    if limit == 0 || cfg!(miri) {
+        return;
+    }
+    let mut last = vec![(0u64, Instant::now()); jobs];
+    while !ALL_DONE.load(Ordering::Relaxed) {
+        std::thread::sleep(std::time::Duration::from_millis(250));
+        for w in 0..jobs {
+            let t = TICK[w].load(Ordering::Relaxed);
+            let cur = CURRENT[w].load(Ordering::Relaxed);
+            if t != last[w].0 || cur == 0 {
+                last[w] = (t, Instant::now());
+            } else if last[w].1.elapsed().as_secs() >= limit {
+                println!("STUCK scenario={} run_index={} seconds={}", scenario, cur - 1, last[w].1.elapsed().as_secs());
+                std::process::exit(4);
+            }
+        }
+    }
+}
+
 pub fn run(s: &'static dyn Scenario, base_seed: u64, start: u64, runs: u64, jobs: usize, tier: Tier, want_transcript: bool) -> Summary {
     let t0 = Instant::now();
     let jobs = jobs.max(1).min(64);
     let mut outs: Vec<WorkerOut> = Vec::new();
+    ALL_DONE.store(false, Ordering::Relaxed);
+    for w in 0..64 {
+        CURRENT[w].store(0, Ordering::Relaxed);
+    }
     std::thread::scope(|sc| {
         let mut hs = Vec::new();
+        let name = s.name();
+        sc.spawn(move || watchdog(name, jobs));
         for w in 0..jobs {
             hs.push(sc.spawn(move || {
                 let mut o = WorkerOut {
@@ -85,7 +120,10 @@ pub fn run(s: &'static dyn Scenario, base_seed: u64, start: u64, runs: u64, jobs
                 while idx < start + runs {
                     let (seed, trace) = gen_trace(s, base_seed, idx, tier);
                     let mut obs = Obs::new();
+                    CURRENT[w].store(idx + 1, Ordering::Relaxed);
                     let res = s.execute(&trace, &mut obs);
+                    CURRENT[w].store(0, Ordering::Relaxed);
+                    TICK[w].fetch_add(1, Ordering::Relaxed);
                     o.evaluations += 1;
                     o.ops += obs.ops;
                     for (k, v) in obs.stats.iter() {
@@ -120,6 +158,7 @@ pub fn run(s: &'static dyn Scenario, base_seed: u64, start: u64, runs: u64, jobs
         for h in hs {
             outs.push(h.join().expect("worker crashed"));
         }
+        ALL_DONE.store(true, Ordering::Relaxed);
     });
 
     let mut sum = Summary {
